@@ -12,7 +12,14 @@ cleanup() { git -C /repo worktree remove --force "$wt" 2>/dev/null; rm -rf "$vf"
 trap cleanup EXIT
 git -C /repo worktree add -q --detach "$wt" HEAD
 # later fix: commits may have moved the context of an older patch: fall back to a 3-way apply, then to fuzz
-git -C "$wt" apply "$patch" 2>/dev/null || git -C "$wt" apply -3 "$patch" 2>/dev/null || (cd "$wt" && patch -p1 --fuzz=3 -s < "$patch") || { echo "patch does not apply to the current HEAD"; exit 2; }
+if ! git -C "$wt" apply "$patch" 2>/dev/null; then
+  if ! git -C "$wt" apply -3 "$patch" 2>/dev/null || grep -rq '^<<<<<<< ' "$wt/_delb" "$wt/delb"; then
+    git -C "$wt" reset -q --hard
+    if ! (cd "$wt" && patch -p1 --fuzz=3 -s < "$patch" >/dev/null 2>&1); then
+      echo "patch does not apply to the current HEAD"; exit 2
+    fi
+  fi
+fi
 mkdir -p "$vf"
 rsync -a --exclude .git --exclude build/run --exclude build/replay --exclude evidence --exclude design_probes --exclude seeded "$here/" "$vf/"
 mkdir -p "$vf/evidence" "$vf/build/run" "$vf/build/replay"
